@@ -644,13 +644,16 @@ func (g *Gen) genSend() *eng.Tx {
 	if g.chance(0.06) {
 		m.Recipient = strings.ToUpper(m.Sender) // a send to oneself under another spelling of the address
 	}
-	if g.chance(0.3) {
+	if g.chance(0.4) {
 		// aim at a row another module also writes: a recipient with escrowed credits (open sell orders)
 		// or a retired balance in the very batch that is sent
 		var cands []string
 		for k, bal := range g.V.Balances {
 			if k.BatchKey == h.Row.BatchKey && k.Addr != owner && bal.E != nil && bal.E.Sign() > 0 {
 				cands = append(cands, k.Addr)
+				if bal.R == nil || bal.E.Cmp(bal.R) > 0 {
+					cands = append(cands, k.Addr, k.Addr) // escrow larger than the retired column: three times as likely
+				}
 			}
 		}
 		if len(cands) > 0 {
